@@ -1,6 +1,7 @@
 package props
 
 import (
+	"reflect"
 	"bytes"
 	"encoding/binary"
 	"encoding/json"
@@ -274,6 +275,7 @@ func corpusRoots(b *fw.B, e schemas.Entry, preset string, spec *common.Spec, sc 
 		b.Violate("root/struct/"+e.Name, fmt.Sprintf("%s (%s preset): struct HashTreeRoot %x differs from the SSZ merkleization of the schema %x (%d bytes: %x...)", e.Name, preset, got[:6], want[:6], len(enc), enc[:min(len(enc), 32)]), map[string]any{"ssz_hex": fmt.Sprintf("%x", enc[:min(len(enc), 4000)])})
 		return
 	}
+	corpusConversions(b, e, preset, spec, want, enc, o)
 	if e.ViewType == nil {
 		return
 	}
@@ -497,5 +499,90 @@ func corpusMalformed(b *fw.B, e schemas.Entry, preset string, spec *common.Spec,
 				try("offsets", data)
 			}
 		}
+	}
+}
+
+// corpusConversions exercises the library's own conversions between the two representations:
+// struct.View(...) must give a tree view with the same root and bytes, and view.Raw(...) must give back the same struct.
+func corpusConversions(b *fw.B, e schemas.Entry, preset string, spec *common.Spec, want [32]byte, enc []byte, o sszObj) {
+	specT := reflect.TypeOf(spec)
+	call := func(recv reflect.Value, name string) (out []reflect.Value, ok bool) {
+		m := recv.MethodByName(name)
+		if !m.IsValid() {
+			return nil, false
+		}
+		switch t := m.Type(); {
+		case t.NumIn() == 0:
+			return m.Call(nil), true
+		case t.NumIn() == 1 && t.In(0) == specT:
+			return m.Call([]reflect.Value{reflect.ValueOf(spec)}), true
+		}
+		return nil, false
+	}
+	var problem string
+	var viewVal reflect.Value
+	if !b.NoPanic("convert/View-panic/"+e.Name, func() {
+		out, ok := call(reflect.ValueOf(o.obj), "View")
+		if !ok || len(out) == 0 {
+			return
+		}
+		if len(out) == 2 && !out[1].IsNil() {
+			problem = fmt.Sprintf("View() returned an error: %v", out[1].Interface())
+			return
+		}
+		v, isView := out[0].Interface().(view.View)
+		if !isView || out[0].IsNil() {
+			return
+		}
+		viewVal = out[0]
+		b.Inc("struct_to_view_conversions")
+		b.SetAdd("types_with_struct_to_view_conversion", e.Name)
+		if r := v.HashTreeRoot(tree.GetHashFn()); [32]byte(r) != want {
+			problem = fmt.Sprintf("the view made by View() has root %x, the SSZ merkleization of the value is %x", r[:6], want[:6])
+			return
+		}
+		var buf bytes.Buffer
+		if err := v.Serialize(codec.NewEncodingWriter(&buf)); err != nil || !bytes.Equal(buf.Bytes(), enc) {
+			problem = fmt.Sprintf("the view made by View() serializes to other bytes (err %v)", err)
+		}
+	}) {
+		return
+	}
+	if problem != "" {
+		b.Violate("convert/View/"+e.Name, fmt.Sprintf("%s (%s preset): %s", e.Name, preset, problem), map[string]any{"ssz_hex": fmt.Sprintf("%x", enc[:min(len(enc), 4000)])})
+		return
+	}
+	if !viewVal.IsValid() {
+		return
+	}
+	if !b.NoPanic("convert/Raw-panic/"+e.Name, func() {
+		out, ok := call(viewVal, "Raw")
+		if !ok || len(out) == 0 {
+			return
+		}
+		if len(out) == 2 && !out[1].IsNil() {
+			problem = fmt.Sprintf("Raw() returned an error: %v", out[1].Interface())
+			return
+		}
+		r := out[0]
+		if r.Kind() != reflect.Ptr {
+			p := reflect.New(r.Type())
+			p.Elem().Set(r)
+			r = p
+		}
+		if r.IsNil() || r.Type() != reflect.TypeOf(o.obj) {
+			return
+		}
+		back, err := sszObj{spec, r.Interface()}.serialize()
+		b.Inc("view_to_struct_conversions")
+		b.SetAdd("types_with_view_to_struct_conversion", e.Name)
+		if err != nil || !bytes.Equal(back, enc) {
+			problem = fmt.Sprintf("View() then Raw() gives a struct that serializes to other bytes (err %v)", err)
+		}
+	}) {
+		return
+	}
+	if problem != "" {
+		b.Violate("convert/Raw/"+e.Name, fmt.Sprintf("%s (%s preset): %s", e.Name, preset, problem), map[string]any{"ssz_hex": fmt.Sprintf("%x", enc[:min(len(enc), 4000)])})
 	}
 }
